@@ -324,7 +324,7 @@ class SymSim:
         self.interp.effects.clear()
         self.interp.raised.clear()
 
-    def sym_state(self, prefix="s", concrete=(), clocks=None):
+    def sym_state(self, prefix="s", concrete=(), clocks=None, namer=None, symbolic_clocks=False):
         """Make every non-clock signal bit that is not combinationally driven, and every memory
         row, a fresh symbolic value.  `concrete` signals keep their current value.  Returns
         {signal or (memory, row): SymInt}."""
@@ -352,7 +352,7 @@ class SymSim:
                 if w == 0 or cm == full:
                     s.curr = s.next = sig.init
                     continue
-                v = fresh(f"{prefix}{idx}_{sig.name}", w, sig.shape().signed)
+                v = fresh(namer(sig) if namer else f"{prefix}{idx}_{sig.name}", w, sig.shape().signed)
                 out[sig] = v
                 if cm:
                     u = ((v & full) & ~cm) | (sig.init & cm)
@@ -365,7 +365,7 @@ class SymSim:
                 shape = s.shape
                 rows = []
                 for r in range(mem.depth):
-                    v = fresh(f"{prefix}{idx}_mem{r}", shape.width, shape.signed)
+                    v = fresh(namer((mem, r)) if namer else f"{prefix}{idx}_mem{r}", shape.width, shape.signed)
                     out[(mem, r)] = v
                     rows.append(v)
                 s.data = rows
